@@ -48,6 +48,10 @@ pub fn byzantine_keys(b: &mut Builder, f: u8) -> Vec<(Kind, Vec<u8>, Option<bool
         2 | 4 => vec![(Kind::Local, 32), (Kind::Secret, 64), (Kind::Public, 32)],
         _ => vec![(Kind::Local, 32)],
     };
+    // every 32 bytes are a local key: the extreme and patterned values too
+    for pat in [vec![0u8; 32], vec![0xff; 32], (0u8..32).collect::<Vec<u8>>(), { let mut v = vec![0u8; 32]; v[31] = 1; v }, { let mut v = vec![0u8; 32]; v[0] = 0x80; v }] {
+        out.push((Kind::Local, pat, Some(true), "patterned local key".into()));
+    }
     for (k, good) in fixed {
         for len in 0..=128usize {
             if len == good {
